@@ -285,3 +285,8 @@ def run(repo, rep, tier):
     rep.check('totality', 'db[category][name] with a peer-supplied name is guarded by a membership test or KeyError handler', guarded or in_try, first,
               'KeyError for an unknown peer-supplied name of Terrapin shape (e.g. "foo-cbc" plus any ETM MAC): db[category][algorithm_name] is indexed without a membership test',
               func='ssh_audit:post_process_findings._add_terrapin_warning', stmt='db[category][algorithm_name]')
+
+    # ---- the table the notes are written to is private to the scan (shared rule, props/_dbcopy.py) ----------------------------------------
+    from props import _dbcopy
+    from sa.consteval import ConstEnv as _CE2
+    _dbcopy.check_private_copy(repo, rep, 'private-table', _CE2(repo), 'Terrapin marks applied while scanning one target stay on the master table and appear on every later target (flagged although its marker is present, or twice)')
